@@ -1,1 +1,1861 @@
-//! reference model: regex (see DESIGN.md §4 E7)
+//! Reference model for C19: regular expressions with markers (DESIGN.md §4 E7).
+//!
+//! * `RefRe` — expression tree over *marked letters* `(byte, marker)` with Brzozowski-derivative
+//!   semantics (`nullable`, `deriv`), smart constructors (ACI of union, flattening) so that the
+//!   derivative automaton is finite.
+//! * builder functions mirroring every public combinator of the library's `RegexInstructions`
+//!   (derived combinators are defined natively here, e.g. bounded repetition is a `Rep` node,
+//!   not a union of concatenations).
+//! * `Recipe` — a serialisable description of one expression from which both the library `Regex`
+//!   (interpreter lives in `bin/c19.rs`) and the `RefRe` (`Recipe::to_ref`) are built.
+//! * `RefAut` — marked derivative automaton over byte classes, liveness, sequential
+//!   output-determinism, product with a compiled DFA (`LibDfa`).
+//! * `match_markers` (derivative DP) and `naive_match` (span-based denotational matcher,
+//!   independent of the derivative code) for witnesses and self-checks.
+//!
+//! Semantics of markers (library docs, `regex.rs`): an expression denotes a set of *marked words*
+//! (one marker per byte, 0 = no marker). Intersection unifies position-wise: equal markers, or
+//! one of them 0 (the non-zero wins); complement is taken among unmarked words and its operand
+//! carries no markers.
+
+use std::collections::{BTreeMap, BTreeSet, HashMap, VecDeque};
+use std::sync::Arc;
+
+use rand::Rng;
+use serde::{Deserialize, Serialize};
+
+pub type Marker = usize;
+pub type Letter = (u8, Marker);
+
+#[derive(Clone, PartialEq, Eq, Hash, PartialOrd, Ord, Debug)]
+pub enum RefRe {
+    Empty,
+    Eps,
+    /// non-empty, sorted, de-duplicated set of marked letters
+    Set(Arc<Vec<Letter>>),
+    Cat(Arc<Vec<RefRe>>),
+    Alt(Arc<Vec<RefRe>>),
+    And(Arc<Vec<RefRe>>),
+    Not(Arc<RefRe>),
+    Star(Arc<RefRe>),
+    /// between lo and hi copies (hi >= 1)
+    Rep(Arc<RefRe>, usize, usize),
+}
+
+use RefRe::*;
+
+// ---------------------------------------------------------------------------------------------
+// smart constructors
+// ---------------------------------------------------------------------------------------------
+
+impl RefRe {
+    pub fn set(mut l: Vec<Letter>) -> RefRe {
+        l.sort();
+        l.dedup();
+        if l.is_empty() {
+            Empty
+        } else {
+            Set(Arc::new(l))
+        }
+    }
+
+    /// all unmarked words
+    pub fn sigma_star() -> RefRe {
+        Star(Arc::new(RefRe::set((0..=255u8).map(|b| (b, 0)).collect())))
+    }
+
+    fn is_sigma_star(&self) -> bool {
+        if let Star(r) = self {
+            if let Set(l) = &**r {
+                return l.len() == 256 && l.iter().all(|(_, m)| *m == 0);
+            }
+        }
+        false
+    }
+
+    pub fn mk_cat(items: Vec<RefRe>) -> RefRe {
+        let mut out: Vec<RefRe> = Vec::with_capacity(items.len());
+        for it in items {
+            match it {
+                Empty => return Empty,
+                Eps => {}
+                Cat(v) => out.extend(v.iter().cloned()),
+                x => out.push(x),
+            }
+        }
+        match out.len() {
+            0 => Eps,
+            1 => out.pop().unwrap(),
+            _ => Cat(Arc::new(out)),
+        }
+    }
+
+    pub fn mk_alt(items: Vec<RefRe>) -> RefRe {
+        let mut out: Vec<RefRe> = Vec::with_capacity(items.len());
+        for it in items {
+            match it {
+                Empty => {}
+                Alt(v) => out.extend(v.iter().cloned()),
+                x => out.push(x),
+            }
+        }
+        out.sort();
+        out.dedup();
+        match out.len() {
+            0 => Empty,
+            1 => out.pop().unwrap(),
+            _ => Alt(Arc::new(out)),
+        }
+    }
+
+    /// n-ary intersection with marker unification. Commutative and associative (the result marker
+    /// at a position is the common non-zero marker, or 0); NOT idempotent on output-ambiguous
+    /// operands, hence no de-duplication.
+    pub fn mk_and(items: Vec<RefRe>) -> RefRe {
+        let mut out: Vec<RefRe> = Vec::with_capacity(items.len());
+        for it in items {
+            match it {
+                Empty => return Empty,
+                And(v) => out.extend(v.iter().cloned()),
+                x if x.is_sigma_star() => {}
+                x => out.push(x),
+            }
+        }
+        // intersection with {epsilon} (which carries no marker) is {epsilon} or empty
+        if out.iter().any(|x| *x == Eps) {
+            return if out.iter().all(|x| x.nullable()) { Eps } else { Empty };
+        }
+        out.sort();
+        match out.len() {
+            0 => RefRe::sigma_star(),
+            1 => out.pop().unwrap(),
+            _ => And(Arc::new(out)),
+        }
+    }
+
+    pub fn mk_not(r: RefRe) -> RefRe {
+        match r {
+            Not(x) => (*x).clone(),
+            Empty => RefRe::sigma_star(),
+            x if x.is_sigma_star() => Empty,
+            x => Not(Arc::new(x)),
+        }
+    }
+
+    pub fn mk_star(r: RefRe) -> RefRe {
+        match r {
+            Empty | Eps => Eps,
+            Star(x) => Star(x),
+            x => Star(Arc::new(x)),
+        }
+    }
+
+    pub fn mk_rep(r: RefRe, lo: usize, hi: usize) -> RefRe {
+        assert!(lo <= hi);
+        if hi == 0 {
+            return Eps;
+        }
+        match r {
+            Empty => {
+                if lo == 0 {
+                    Eps
+                } else {
+                    Empty
+                }
+            }
+            Eps => Eps,
+            x => {
+                if lo == 1 && hi == 1 {
+                    x
+                } else {
+                    Rep(Arc::new(x), lo, hi)
+                }
+            }
+        }
+    }
+
+    pub fn nullable(&self) -> bool {
+        match self {
+            Empty => false,
+            Eps => true,
+            Set(_) => false,
+            Cat(v) => v.iter().all(|r| r.nullable()),
+            Alt(v) => v.iter().any(|r| r.nullable()),
+            And(v) => v.iter().all(|r| r.nullable()),
+            Not(r) => !r.nullable(),
+            Star(_) => true,
+            Rep(r, lo, _) => *lo == 0 || r.nullable(),
+        }
+    }
+
+    /// Brzozowski derivative with respect to the marked letter `(b, m)`.
+    pub fn deriv(&self, b: u8, m: Marker) -> RefRe {
+        match self {
+            Empty | Eps => Empty,
+            Set(l) => {
+                if l.binary_search(&(b, m)).is_ok() {
+                    Eps
+                } else {
+                    Empty
+                }
+            }
+            Cat(v) => {
+                let mut alts = vec![];
+                for i in 0..v.len() {
+                    let d = v[i].deriv(b, m);
+                    if d != Empty {
+                        let mut items = Vec::with_capacity(v.len() - i);
+                        items.push(d);
+                        items.extend(v[i + 1..].iter().cloned());
+                        alts.push(RefRe::mk_cat(items));
+                    }
+                    if !v[i].nullable() {
+                        break;
+                    }
+                }
+                RefRe::mk_alt(alts)
+            }
+            Alt(v) => RefRe::mk_alt(v.iter().map(|r| r.deriv(b, m)).collect()),
+            And(v) => {
+                if m == 0 {
+                    RefRe::mk_and(v.iter().map(|r| r.deriv(b, 0)).collect())
+                } else {
+                    // every component reads (b,m) or (b,0); at least one reads (b,m)
+                    let a: Vec<RefRe> = v.iter().map(|r| r.deriv(b, m)).collect();
+                    let z: Vec<RefRe> = v.iter().map(|r| r.deriv(b, 0)).collect();
+                    let n = v.len();
+                    let mut alts = vec![];
+                    'mask: for mask in 1u32..(1u32 << n) {
+                        let mut items = Vec::with_capacity(n);
+                        for i in 0..n {
+                            let c = if mask >> i & 1 == 1 { &a[i] } else { &z[i] };
+                            if *c == Empty {
+                                continue 'mask;
+                            }
+                            items.push(c.clone());
+                        }
+                        alts.push(RefRe::mk_and(items));
+                    }
+                    RefRe::mk_alt(alts)
+                }
+            }
+            Not(r) => {
+                if m == 0 {
+                    RefRe::mk_not(r.deriv(b, 0))
+                } else {
+                    Empty
+                }
+            }
+            Star(r) => RefRe::mk_cat(vec![r.deriv(b, m), self.clone()]),
+            Rep(r, lo, hi) => RefRe::mk_cat(vec![
+                r.deriv(b, m),
+                RefRe::mk_rep((**r).clone(), lo.saturating_sub(1), hi - 1),
+            ]),
+        }
+    }
+
+    fn visit_sets<'a>(&'a self, f: &mut impl FnMut(&'a Arc<Vec<Letter>>)) {
+        match self {
+            Empty | Eps => {}
+            Set(l) => f(l),
+            Cat(v) | Alt(v) | And(v) => v.iter().for_each(|r| r.visit_sets(f)),
+            Not(r) | Star(r) | Rep(r, _, _) => r.visit_sets(f),
+        }
+    }
+
+    pub fn has_markers(&self) -> bool {
+        let mut any = false;
+        self.visit_sets(&mut |l| any |= l.iter().any(|(_, m)| *m != 0));
+        any
+    }
+
+    pub fn has_not(&self) -> bool {
+        match self {
+            Not(_) => true,
+            Empty | Eps | Set(_) => false,
+            Cat(v) | Alt(v) | And(v) => v.iter().any(|r| r.has_not()),
+            Star(r) | Rep(r, _, _) => r.has_not(),
+        }
+    }
+
+    pub fn size(&self) -> usize {
+        match self {
+            Empty | Eps | Set(_) => 1,
+            Cat(v) | Alt(v) | And(v) => 1 + v.iter().map(|r| r.size()).sum::<usize>(),
+            Not(r) | Star(r) | Rep(r, _, _) => 1 + r.size(),
+        }
+    }
+
+    /// applies `f` to every letter (the library's `Regex::map`)
+    pub fn map_letters(&self, f: &impl Fn(Letter) -> Letter) -> RefRe {
+        match self {
+            Empty => Empty,
+            Eps => Eps,
+            Set(l) => RefRe::set(l.iter().map(|x| f(*x)).collect()),
+            Cat(v) => RefRe::mk_cat(v.iter().map(|r| r.map_letters(f)).collect()),
+            Alt(v) => RefRe::mk_alt(v.iter().map(|r| r.map_letters(f)).collect()),
+            And(v) => RefRe::mk_and(v.iter().map(|r| r.map_letters(f)).collect()),
+            Not(r) => RefRe::mk_not(r.map_letters(f)),
+            Star(r) => RefRe::mk_star(r.map_letters(f)),
+            Rep(r, lo, hi) => RefRe::mk_rep(r.map_letters(f), *lo, *hi),
+        }
+    }
+}
+
+// ---------------------------------------------------------------------------------------------
+// builders mirroring `RegexInstructions` (same names)
+// ---------------------------------------------------------------------------------------------
+
+impl RefRe {
+    pub fn byte_from(l: impl IntoIterator<Item = u8>) -> RefRe {
+        RefRe::set(l.into_iter().map(|b| (b, 0)).collect())
+    }
+    pub fn byte_not_from(l: impl IntoIterator<Item = u8>) -> RefRe {
+        let ex: BTreeSet<u8> = l.into_iter().collect();
+        RefRe::byte_from((0..=255u8).filter(|b| !ex.contains(b)))
+    }
+    pub fn any_byte() -> RefRe {
+        RefRe::byte_from(0..=255u8)
+    }
+    pub fn word(w: &[u8]) -> RefRe {
+        RefRe::mk_cat(w.iter().map(|b| RefRe::byte_from([*b])).collect())
+    }
+    pub fn digit() -> RefRe {
+        RefRe::byte_from(b'0'..=b'9')
+    }
+    pub fn lowercase_letter() -> RefRe {
+        RefRe::byte_from(b'a'..=b'z')
+    }
+    pub fn uppercase_letter() -> RefRe {
+        RefRe::byte_from(b'A'..=b'Z')
+    }
+    pub fn letter() -> RefRe {
+        RefRe::byte_from((b'a'..=b'z').chain(b'A'..=b'Z'))
+    }
+    pub fn alphanumeric() -> RefRe {
+        RefRe::byte_from((b'a'..=b'z').chain(b'A'..=b'Z').chain(b'0'..=b'9'))
+    }
+    pub fn one_blank() -> RefRe {
+        RefRe::byte_from([b' ', b'\t', b'\n'])
+    }
+    pub fn blanks() -> RefRe {
+        RefRe::mk_star(RefRe::one_blank())
+    }
+    pub fn blanks_strict() -> RefRe {
+        RefRe::one_blank().non_empty_list()
+    }
+    pub fn epsilon() -> RefRe {
+        Eps
+    }
+    pub fn any() -> RefRe {
+        RefRe::sigma_star()
+    }
+    pub fn neg(self) -> RefRe {
+        RefRe::mk_not(self)
+    }
+    pub fn union(l: Vec<RefRe>) -> RefRe {
+        RefRe::mk_alt(l)
+    }
+    pub fn inter(l: Vec<RefRe>) -> RefRe {
+        RefRe::mk_and(l)
+    }
+    pub fn cat(l: Vec<RefRe>) -> RefRe {
+        RefRe::mk_cat(l)
+    }
+    pub fn list(self) -> RefRe {
+        RefRe::mk_star(self)
+    }
+    pub fn non_empty_list(self) -> RefRe {
+        RefRe::mk_cat(vec![self.clone(), RefRe::mk_star(self)])
+    }
+    pub fn optional(self) -> RefRe {
+        RefRe::mk_alt(vec![Eps, self])
+    }
+    pub fn terminated(self, o: RefRe) -> RefRe {
+        RefRe::mk_cat(vec![self, o])
+    }
+    pub fn or(self, o: RefRe) -> RefRe {
+        RefRe::mk_alt(vec![self, o])
+    }
+    pub fn and(self, o: RefRe) -> RefRe {
+        RefRe::mk_and(vec![self, o])
+    }
+    pub fn minus(self, o: RefRe) -> RefRe {
+        RefRe::mk_and(vec![self, RefRe::mk_not(o)])
+    }
+    pub fn delimited(self, open: RefRe, close: RefRe) -> RefRe {
+        RefRe::mk_cat(vec![open, self, close])
+    }
+    /// x (sep x)*
+    pub fn separated_non_empty_list(self, sep: RefRe) -> RefRe {
+        RefRe::mk_cat(vec![
+            self.clone(),
+            RefRe::mk_star(RefRe::mk_cat(vec![sep, self])),
+        ])
+    }
+    pub fn separated_list(self, sep: RefRe) -> RefRe {
+        self.separated_non_empty_list(sep).optional()
+    }
+    /// x1 sep x2 sep ... xn (epsilon for n = 0)
+    pub fn separated_cat(l: Vec<RefRe>, sep: RefRe) -> RefRe {
+        let mut items = vec![];
+        for (i, x) in l.into_iter().enumerate() {
+            if i > 0 {
+                items.push(sep.clone());
+            }
+            items.push(x);
+        }
+        RefRe::mk_cat(items)
+    }
+    /// exactly n copies
+    pub fn repeat(self, n: usize) -> RefRe {
+        RefRe::mk_rep(self, n, n)
+    }
+    pub fn repeat_at_most(self, n: usize) -> RefRe {
+        RefRe::mk_rep(self, 0, n)
+    }
+    /// exactly n copies separated by sep (epsilon for n = 0)
+    pub fn separated_repeat(self, n: usize, sep: RefRe) -> RefRe {
+        if n == 0 {
+            return Eps;
+        }
+        RefRe::mk_cat(vec![
+            self.clone(),
+            RefRe::mk_rep(RefRe::mk_cat(vec![sep, self]), n - 1, n - 1),
+        ])
+    }
+    /// 0..=n copies separated by sep
+    pub fn separated_repeat_at_most(self, n: usize, sep: RefRe) -> RefRe {
+        if n == 0 {
+            return Eps;
+        }
+        RefRe::mk_alt(vec![
+            Eps,
+            RefRe::mk_cat(vec![
+                self.clone(),
+                RefRe::mk_rep(RefRe::mk_cat(vec![sep, self]), 0, n - 1),
+            ]),
+        ])
+    }
+    /// separator " blanks sep blanks "
+    fn spaced_sep(sep: RefRe) -> RefRe {
+        RefRe::mk_cat(vec![RefRe::blanks(), sep, RefRe::blanks()])
+    }
+    pub fn mark(&self, f: &impl Fn(u8) -> Option<Marker>) -> RefRe {
+        self.map_letters(&|(c, m)| (c, f(c).unwrap_or(m)))
+    }
+    pub fn replace_markers(&self, f: &impl Fn(Marker) -> Option<Marker>) -> RefRe {
+        self.map_letters(&|(c, m)| (c, f(m).unwrap_or(m)))
+    }
+    /// UTF-8 code point sequences (RFC 3629 table of well-formed byte sequences)
+    pub fn utf8_cps() -> RefRe {
+        let r = |a: u8, b: u8| RefRe::byte_from(a..=b);
+        let tail = || r(0x80, 0xBF);
+        RefRe::mk_alt(vec![
+            r(0x00, 0x7F),
+            RefRe::mk_cat(vec![r(0xC2, 0xDF), tail()]),
+            RefRe::mk_cat(vec![r(0xE0, 0xE0), r(0xA0, 0xBF), tail()]),
+            RefRe::mk_cat(vec![r(0xE1, 0xEC), tail(), tail()]),
+            RefRe::mk_cat(vec![r(0xED, 0xED), r(0x80, 0x9F), tail()]),
+            RefRe::mk_cat(vec![r(0xEE, 0xEF), tail(), tail()]),
+            RefRe::mk_cat(vec![r(0xF0, 0xF0), r(0x90, 0xBF), tail(), tail()]),
+            RefRe::mk_cat(vec![r(0xF1, 0xF3), tail(), tail(), tail()]),
+            RefRe::mk_cat(vec![r(0xF4, 0xF4), r(0x80, 0x8F), tail(), tail()]),
+        ])
+    }
+    pub fn utf8() -> RefRe {
+        RefRe::mk_star(RefRe::utf8_cps())
+    }
+    /// RFC 8259 §7 string; the quoted content is marked 1 (library doc of `json_string`)
+    pub fn json_string() -> RefRe {
+        // unescaped = any UTF-8 code point whose (single-byte) encoding is not a control
+        // character, '"' or '\\' — those three classes are all one-byte sequences
+        let r = |a: u8, b: u8| RefRe::byte_from(a..=b);
+        let tail = || r(0x80, 0xBF);
+        let unescaped = RefRe::mk_alt(vec![
+            RefRe::byte_from((0x20..=0x7Fu8).filter(|b| *b != b'"' && *b != b'\\')),
+            RefRe::mk_cat(vec![r(0xC2, 0xDF), tail()]),
+            RefRe::mk_cat(vec![r(0xE0, 0xE0), r(0xA0, 0xBF), tail()]),
+            RefRe::mk_cat(vec![r(0xE1, 0xEC), tail(), tail()]),
+            RefRe::mk_cat(vec![r(0xED, 0xED), r(0x80, 0x9F), tail()]),
+            RefRe::mk_cat(vec![r(0xEE, 0xEF), tail(), tail()]),
+            RefRe::mk_cat(vec![r(0xF0, 0xF0), r(0x90, 0xBF), tail(), tail()]),
+            RefRe::mk_cat(vec![r(0xF1, 0xF3), tail(), tail(), tail()]),
+            RefRe::mk_cat(vec![r(0xF4, 0xF4), r(0x80, 0x8F), tail(), tail()]),
+        ]);
+        let simple = RefRe::mk_cat(vec![
+            RefRe::byte_from([b'\\']),
+            RefRe::byte_from(*b"\"\\/bfnrt"),
+        ]);
+        let hex = RefRe::byte_from((b'0'..=b'9').chain(b'a'..=b'f').chain(b'A'..=b'F'));
+        let uni = RefRe::mk_cat(vec![
+            RefRe::byte_from([b'\\']),
+            RefRe::byte_from([b'u']),
+            RefRe::mk_rep(hex, 4, 4),
+        ]);
+        let content = RefRe::mk_star(RefRe::mk_alt(vec![unescaped, simple, uni]));
+        let content = content.mark(&|_| Some(1));
+        RefRe::mk_cat(vec![
+            RefRe::byte_from([b'"']),
+            content,
+            RefRe::byte_from([b'"']),
+        ])
+    }
+}
+
+// ---------------------------------------------------------------------------------------------
+// Recipe
+// ---------------------------------------------------------------------------------------------
+
+/// inclusive byte ranges
+#[derive(Clone, Debug, PartialEq, Eq, Hash, Serialize, Deserialize)]
+pub struct ByteSet(pub Vec<(u8, u8)>);
+
+impl ByteSet {
+    pub fn bytes(&self) -> Vec<u8> {
+        let mut v = vec![];
+        for (a, b) in &self.0 {
+            if a <= b {
+                v.extend(*a..=*b);
+            }
+        }
+        v
+    }
+    pub fn contains(&self, x: u8) -> bool {
+        self.0.iter().any(|(a, b)| *a <= x && x <= *b)
+    }
+    pub fn from_bytes(bs: &[u8]) -> ByteSet {
+        ByteSet(bs.iter().map(|b| (*b, *b)).collect())
+    }
+}
+
+/// `f(b)` = value of the first rule whose set contains `b`; `None` when no rule applies.
+#[derive(Clone, Debug, PartialEq, Eq, Hash, Serialize, Deserialize)]
+pub struct MarkFn(pub Vec<(ByteSet, Option<Marker>)>);
+impl MarkFn {
+    pub fn apply(&self, b: u8) -> Option<Marker> {
+        for (s, v) in &self.0 {
+            if s.contains(b) {
+                return *v;
+            }
+        }
+        None
+    }
+}
+
+#[derive(Clone, Debug, PartialEq, Eq, Hash, Serialize, Deserialize)]
+pub enum Recipe {
+    // leaves
+    ByteFrom(ByteSet),
+    ByteNotFrom(ByteSet),
+    AnyByte,
+    Word(String),
+    FromStr(String),
+    FromString(String),
+    FromU8(u8),
+    FromRefU8(u8),
+    Digit,
+    Lower,
+    Upper,
+    Letter,
+    Alnum,
+    OneBlank,
+    BlanksStrict,
+    Blanks,
+    Epsilon,
+    Any,
+    Utf8Cps,
+    Utf8,
+    JsonString,
+    // unary
+    Neg(Box<Recipe>),
+    List(Box<Recipe>),
+    SpacedList(Box<Recipe>),
+    NonEmptyList(Box<Recipe>),
+    SpacedNonEmptyList(Box<Recipe>),
+    Optional(Box<Recipe>),
+    Repeat(Box<Recipe>, usize),
+    SpacedRepeat(Box<Recipe>, usize),
+    RepeatAtMost(Box<Recipe>, usize),
+    SpacedRepeatAtMost(Box<Recipe>, usize),
+    Mark(Box<Recipe>, MarkFn),
+    MarkBytes(Box<Recipe>, ByteSet, Marker),
+    ReplaceMarkers(Box<Recipe>, Vec<(Marker, Marker)>),
+    // binary
+    Terminated(Box<Recipe>, Box<Recipe>),
+    SpacedTerminated(Box<Recipe>, Box<Recipe>),
+    Or(Box<Recipe>, Box<Recipe>),
+    And(Box<Recipe>, Box<Recipe>),
+    Minus(Box<Recipe>, Box<Recipe>),
+    SeparatedNonEmptyList(Box<Recipe>, Box<Recipe>),
+    SpacedSeparatedNonEmptyList(Box<Recipe>, Box<Recipe>),
+    SeparatedList(Box<Recipe>, Box<Recipe>),
+    SpacedSeparatedList(Box<Recipe>, Box<Recipe>),
+    SeparatedRepeat(Box<Recipe>, usize, Box<Recipe>),
+    SpacedSeparatedRepeat(Box<Recipe>, usize, Box<Recipe>),
+    SeparatedRepeatAtMost(Box<Recipe>, usize, Box<Recipe>),
+    SpacedSeparatedRepeatAtMost(Box<Recipe>, usize, Box<Recipe>),
+    // ternary: (self, opening, closing)
+    Delimited(Box<Recipe>, Box<Recipe>, Box<Recipe>),
+    SpacedDelimited(Box<Recipe>, Box<Recipe>, Box<Recipe>),
+    // n-ary
+    Union(Vec<Recipe>),
+    Inter(Vec<Recipe>),
+    Cat(Vec<Recipe>),
+    SpacedCat(Vec<Recipe>),
+    SeparatedCat(Vec<Recipe>, Box<Recipe>),
+    SpacedSeparatedCat(Vec<Recipe>, Box<Recipe>),
+}
+
+impl Recipe {
+    pub fn name(&self) -> &'static str {
+        use Recipe::*;
+        match self {
+            ByteFrom(_) => "byte_from",
+            ByteNotFrom(_) => "byte_not_from",
+            AnyByte => "any_byte",
+            Word(_) => "word",
+            FromStr(_) => "from_str",
+            FromString(_) => "from_string",
+            FromU8(_) => "from_u8",
+            FromRefU8(_) => "from_ref_u8",
+            Digit => "digit",
+            Lower => "lowercase_letter",
+            Upper => "uppercase_letter",
+            Letter => "letter",
+            Alnum => "alphanumeric",
+            OneBlank => "one_blank",
+            BlanksStrict => "blanks_strict",
+            Blanks => "blanks",
+            Epsilon => "epsilon",
+            Any => "any",
+            Utf8Cps => "utf8_cps",
+            Utf8 => "utf8",
+            JsonString => "json_string",
+            Neg(_) => "neg",
+            List(_) => "list",
+            SpacedList(_) => "spaced_list",
+            NonEmptyList(_) => "non_empty_list",
+            SpacedNonEmptyList(_) => "spaced_non_empty_list",
+            Optional(_) => "optional",
+            Repeat(..) => "repeat",
+            SpacedRepeat(..) => "spaced_repeat",
+            RepeatAtMost(..) => "repeat_at_most",
+            SpacedRepeatAtMost(..) => "spaced_repeat_at_most",
+            Mark(..) => "mark",
+            MarkBytes(..) => "mark_bytes",
+            ReplaceMarkers(..) => "replace_markers",
+            Terminated(..) => "terminated",
+            SpacedTerminated(..) => "spaced_terminated",
+            Or(..) => "or",
+            And(..) => "and",
+            Minus(..) => "minus",
+            SeparatedNonEmptyList(..) => "separated_non_empty_list",
+            SpacedSeparatedNonEmptyList(..) => "spaced_separated_non_empty_list",
+            SeparatedList(..) => "separated_list",
+            SpacedSeparatedList(..) => "spaced_separated_list",
+            SeparatedRepeat(..) => "separated_repeat",
+            SpacedSeparatedRepeat(..) => "spaced_separated_repeat",
+            SeparatedRepeatAtMost(..) => "separated_repeat_at_most",
+            SpacedSeparatedRepeatAtMost(..) => "spaced_separated_repeat_at_most",
+            Delimited(..) => "delimited",
+            SpacedDelimited(..) => "spaced_delimited",
+            Union(_) => "union",
+            Inter(_) => "inter",
+            Cat(_) => "cat",
+            SpacedCat(_) => "spaced_cat",
+            SeparatedCat(..) => "separated_cat",
+            SpacedSeparatedCat(..) => "spaced_separated_cat",
+        }
+    }
+
+    pub const ALL_NAMES: [&'static str; 55] = [
+        "byte_from", "byte_not_from", "any_byte", "word", "from_str", "from_string", "from_u8",
+        "from_ref_u8", "digit", "lowercase_letter", "uppercase_letter", "letter", "alphanumeric",
+        "one_blank", "blanks_strict", "blanks", "epsilon", "any", "utf8_cps", "utf8",
+        "json_string", "neg", "list", "spaced_list", "non_empty_list", "spaced_non_empty_list",
+        "optional", "repeat", "spaced_repeat", "repeat_at_most", "spaced_repeat_at_most", "mark",
+        "mark_bytes", "replace_markers", "terminated", "spaced_terminated", "or", "and", "minus",
+        "separated_non_empty_list", "spaced_separated_non_empty_list", "separated_list",
+        "spaced_separated_list", "separated_repeat", "spaced_separated_repeat",
+        "separated_repeat_at_most", "spaced_separated_repeat_at_most", "delimited",
+        "spaced_delimited", "union", "inter", "cat", "spaced_cat", "separated_cat",
+        "spaced_separated_cat",
+    ];
+
+    pub fn children(&self) -> Vec<&Recipe> {
+        use Recipe::*;
+        match self {
+            Neg(a) | List(a) | SpacedList(a) | NonEmptyList(a) | SpacedNonEmptyList(a)
+            | Optional(a) | Repeat(a, _) | SpacedRepeat(a, _) | RepeatAtMost(a, _)
+            | SpacedRepeatAtMost(a, _) | Mark(a, _) | MarkBytes(a, _, _)
+            | ReplaceMarkers(a, _) => vec![a],
+            Terminated(a, b) | SpacedTerminated(a, b) | Or(a, b) | And(a, b) | Minus(a, b)
+            | SeparatedNonEmptyList(a, b) | SpacedSeparatedNonEmptyList(a, b)
+            | SeparatedList(a, b) | SpacedSeparatedList(a, b) | SeparatedRepeat(a, _, b)
+            | SpacedSeparatedRepeat(a, _, b) | SeparatedRepeatAtMost(a, _, b)
+            | SpacedSeparatedRepeatAtMost(a, _, b) => vec![a, b],
+            Delimited(a, b, c) | SpacedDelimited(a, b, c) => vec![a, b, c],
+            Union(v) | Inter(v) | Cat(v) | SpacedCat(v) => v.iter().collect(),
+            SeparatedCat(v, s) | SpacedSeparatedCat(v, s) => {
+                let mut r: Vec<&Recipe> = v.iter().collect();
+                r.push(s);
+                r
+            }
+            _ => vec![],
+        }
+    }
+
+    pub fn children_mut(&mut self) -> Vec<&mut Recipe> {
+        use Recipe::*;
+        match self {
+            Neg(a) | List(a) | SpacedList(a) | NonEmptyList(a) | SpacedNonEmptyList(a)
+            | Optional(a) | Repeat(a, _) | SpacedRepeat(a, _) | RepeatAtMost(a, _)
+            | SpacedRepeatAtMost(a, _) | Mark(a, _) | MarkBytes(a, _, _)
+            | ReplaceMarkers(a, _) => vec![a],
+            Terminated(a, b) | SpacedTerminated(a, b) | Or(a, b) | And(a, b) | Minus(a, b)
+            | SeparatedNonEmptyList(a, b) | SpacedSeparatedNonEmptyList(a, b)
+            | SeparatedList(a, b) | SpacedSeparatedList(a, b) | SeparatedRepeat(a, _, b)
+            | SpacedSeparatedRepeat(a, _, b) | SeparatedRepeatAtMost(a, _, b)
+            | SpacedSeparatedRepeatAtMost(a, _, b) => vec![a, b],
+            Delimited(a, b, c) | SpacedDelimited(a, b, c) => vec![a, b, c],
+            Union(v) | Inter(v) | Cat(v) | SpacedCat(v) => v.iter_mut().collect(),
+            SeparatedCat(v, s) | SpacedSeparatedCat(v, s) => {
+                let mut r: Vec<&mut Recipe> = v.iter_mut().collect();
+                r.push(s);
+                r
+            }
+            _ => vec![],
+        }
+    }
+
+    pub fn node_count(&self) -> usize {
+        1 + self.children().iter().map(|c| c.node_count()).sum::<usize>()
+    }
+
+    pub fn depth(&self) -> usize {
+        1 + self.children().iter().map(|c| c.depth()).max().unwrap_or(0)
+    }
+
+    pub fn visit(&self, f: &mut impl FnMut(&Recipe)) {
+        f(self);
+        for c in self.children() {
+            c.visit(f);
+        }
+    }
+
+    /// combinator skeleton without data, e.g. `minus(list(byte_from),epsilon)`
+    pub fn shape(&self) -> String {
+        let ch = self.children();
+        if ch.is_empty() {
+            self.name().to_string()
+        } else {
+            format!(
+                "{}({})",
+                self.name(),
+                ch.iter().map(|c| c.shape()).collect::<Vec<_>>().join(",")
+            )
+        }
+    }
+
+    /// true if a marker-introducing node occurs (json_string marks its content)
+    pub fn introduces_markers(&self) -> bool {
+        let mut any = false;
+        self.visit(&mut |r| {
+            any |= matches!(
+                r,
+                Recipe::Mark(..) | Recipe::MarkBytes(..) | Recipe::JsonString
+            )
+        });
+        any
+    }
+
+    /// The reference expression, combinator by combinator.
+    pub fn to_ref(&self) -> RefRe {
+        use Recipe::*;
+        let bl = RefRe::blanks;
+        let sp = RefRe::spaced_sep;
+        match self {
+            ByteFrom(s) => RefRe::byte_from(s.bytes()),
+            ByteNotFrom(s) => RefRe::byte_not_from(s.bytes()),
+            AnyByte => RefRe::any_byte(),
+            Word(w) | FromStr(w) | FromString(w) => RefRe::word(w.as_bytes()),
+            FromU8(b) | FromRefU8(b) => RefRe::byte_from([*b]),
+            Digit => RefRe::digit(),
+            Lower => RefRe::lowercase_letter(),
+            Upper => RefRe::uppercase_letter(),
+            Letter => RefRe::letter(),
+            Alnum => RefRe::alphanumeric(),
+            OneBlank => RefRe::one_blank(),
+            BlanksStrict => RefRe::blanks_strict(),
+            Blanks => RefRe::blanks(),
+            Epsilon => RefRe::epsilon(),
+            Any => RefRe::any(),
+            Utf8Cps => RefRe::utf8_cps(),
+            Utf8 => RefRe::utf8(),
+            JsonString => RefRe::json_string(),
+            Neg(a) => a.to_ref().neg(),
+            List(a) => a.to_ref().list(),
+            SpacedList(a) => a.to_ref().separated_list(bl()),
+            NonEmptyList(a) => a.to_ref().non_empty_list(),
+            SpacedNonEmptyList(a) => a.to_ref().separated_non_empty_list(bl()),
+            Optional(a) => a.to_ref().optional(),
+            Repeat(a, n) => a.to_ref().repeat(*n),
+            SpacedRepeat(a, n) => a.to_ref().separated_repeat(*n, bl()),
+            RepeatAtMost(a, n) => a.to_ref().repeat_at_most(*n),
+            SpacedRepeatAtMost(a, n) => a.to_ref().separated_repeat_at_most(*n, bl()),
+            Mark(a, f) => a.to_ref().mark(&|b| f.apply(b)),
+            MarkBytes(a, s, m) => {
+                a.to_ref().mark(&|b| if s.contains(b) { Some(*m) } else { None })
+            }
+            ReplaceMarkers(a, t) => a
+                .to_ref()
+                .replace_markers(&|m| t.iter().find(|(x, _)| *x == m).map(|(_, y)| *y)),
+            Terminated(a, b) => a.to_ref().terminated(b.to_ref()),
+            SpacedTerminated(a, b) => RefRe::cat(vec![a.to_ref(), bl(), b.to_ref()]),
+            Or(a, b) => a.to_ref().or(b.to_ref()),
+            And(a, b) => a.to_ref().and(b.to_ref()),
+            Minus(a, b) => a.to_ref().minus(b.to_ref()),
+            SeparatedNonEmptyList(a, s) => a.to_ref().separated_non_empty_list(s.to_ref()),
+            SpacedSeparatedNonEmptyList(a, s) => {
+                a.to_ref().separated_non_empty_list(sp(s.to_ref()))
+            }
+            SeparatedList(a, s) => a.to_ref().separated_list(s.to_ref()),
+            SpacedSeparatedList(a, s) => a.to_ref().separated_list(sp(s.to_ref())),
+            SeparatedRepeat(a, n, s) => a.to_ref().separated_repeat(*n, s.to_ref()),
+            SpacedSeparatedRepeat(a, n, s) => a.to_ref().separated_repeat(*n, sp(s.to_ref())),
+            SeparatedRepeatAtMost(a, n, s) => a.to_ref().separated_repeat_at_most(*n, s.to_ref()),
+            SpacedSeparatedRepeatAtMost(a, n, s) => {
+                a.to_ref().separated_repeat_at_most(*n, sp(s.to_ref()))
+            }
+            Delimited(a, o, c) => a.to_ref().delimited(o.to_ref(), c.to_ref()),
+            SpacedDelimited(a, o, c) => {
+                RefRe::cat(vec![o.to_ref(), bl(), a.to_ref(), bl(), c.to_ref()])
+            }
+            Union(v) => RefRe::union(v.iter().map(|r| r.to_ref()).collect()),
+            Inter(v) => RefRe::inter(v.iter().map(|r| r.to_ref()).collect()),
+            Cat(v) => RefRe::cat(v.iter().map(|r| r.to_ref()).collect()),
+            SpacedCat(v) => RefRe::separated_cat(v.iter().map(|r| r.to_ref()).collect(), bl()),
+            SeparatedCat(v, s) => {
+                RefRe::separated_cat(v.iter().map(|r| r.to_ref()).collect(), s.to_ref())
+            }
+            SpacedSeparatedCat(v, s) => {
+                RefRe::separated_cat(v.iter().map(|r| r.to_ref()).collect(), sp(s.to_ref()))
+            }
+        }
+    }
+}
+
+// ---------------------------------------------------------------------------------------------
+// random recipes
+// ---------------------------------------------------------------------------------------------
+
+#[derive(Clone, Copy, Debug)]
+pub struct GenFlags {
+    /// inside a complement: nothing may introduce markers (library precondition of `neg`)
+    pub no_marks: bool,
+    /// below a mark / replace_markers node: no complement and no `any()` (the library's `mark`
+    /// maps the letters *inside* a complement and finds no letter in `any()`; the meaning of a
+    /// mark above them is not documented)
+    pub no_neg: bool,
+}
+
+pub struct RecipeGen {
+    pub pool: Vec<u8>,
+    pub max_rep: usize,
+}
+
+const POOL_BASE: [u8; 14] = [
+    b'a', b'b', b'c', b' ', b'0', b',', 0x00, 0xff, 0x80, b'\n', b'"', b'\\', b'z', b'A',
+];
+
+impl RecipeGen {
+    pub fn new(rng: &mut impl Rng) -> RecipeGen {
+        let n = rng.gen_range(2..=5);
+        let mut pool = vec![];
+        while pool.len() < n {
+            let b = POOL_BASE[rng.gen_range(0..POOL_BASE.len())];
+            if !pool.contains(&b) {
+                pool.push(b);
+            }
+        }
+        RecipeGen { pool, max_rep: 3 }
+    }
+
+    fn byteset(&self, rng: &mut impl Rng) -> ByteSet {
+        match rng.gen_range(0..10) {
+            0 => {
+                let a: u8 = rng.gen();
+                let b: u8 = rng.gen();
+                ByteSet(vec![(a.min(b), a.max(b))])
+            }
+            1 => {
+                let p = self.pool[rng.gen_range(0..self.pool.len())];
+                let a: u8 = rng.gen();
+                ByteSet(vec![(p, p), (a, a.saturating_add(rng.gen_range(0..20)))])
+            }
+            2 if rng.gen_bool(0.2) => ByteSet(vec![]),
+            _ => {
+                let mut v = vec![];
+                for p in &self.pool {
+                    if rng.gen_bool(0.5) {
+                        v.push((*p, *p));
+                    }
+                }
+                if v.is_empty() {
+                    v.push((self.pool[0], self.pool[0]));
+                }
+                ByteSet(v)
+            }
+        }
+    }
+
+    fn ascii_word(&self, rng: &mut impl Rng) -> String {
+        let asc: Vec<u8> = self.pool.iter().copied().filter(|b| *b < 0x80).collect();
+        let n = if rng.gen_bool(0.05) { 0 } else { rng.gen_range(1..=3) };
+        (0..n)
+            .map(|_| {
+                if asc.is_empty() {
+                    'a'
+                } else {
+                    asc[rng.gen_range(0..asc.len())] as char
+                }
+            })
+            .collect()
+    }
+
+    fn leaf(&self, rng: &mut impl Rng, fl: GenFlags) -> Recipe {
+        use Recipe::*;
+        loop {
+            let r = match rng.gen_range(0..100) {
+                0..=29 => ByteFrom(self.byteset(rng)),
+                30..=35 => FromU8(self.pool[rng.gen_range(0..self.pool.len())]),
+                36..=37 => FromRefU8(self.pool[rng.gen_range(0..self.pool.len())]),
+                38..=47 => Word(self.ascii_word(rng)),
+                48..=49 => FromStr(self.ascii_word(rng)),
+                50..=51 => FromString(self.ascii_word(rng)),
+                52..=56 => ByteNotFrom(self.byteset(rng)),
+                57..=61 => AnyByte,
+                62..=63 => Digit,
+                64..=65 => Lower,
+                66 => Upper,
+                67 => Letter,
+                68 => Alnum,
+                69..=71 => OneBlank,
+                72..=73 => BlanksStrict,
+                74..=76 => Blanks,
+                77..=79 => Epsilon,
+                80..=81 => Any,
+                82..=85 => Utf8Cps,
+                86..=87 => Utf8,
+                88..=91 => JsonString,
+                92 => Union(vec![]),
+                93 => Inter(vec![]),
+                94 => Cat(vec![]),
+                _ => ByteFrom(self.byteset(rng)),
+            };
+            if fl.no_marks && matches!(r, JsonString) {
+                continue;
+            }
+            if fl.no_neg && matches!(r, Any | Inter(_)) {
+                continue;
+            }
+            return r;
+        }
+    }
+
+    fn markfn(&self, rng: &mut impl Rng) -> MarkFn {
+        let n = rng.gen_range(1..=2);
+        let mut rules = vec![];
+        for _ in 0..n {
+            let set = if rng.gen_bool(0.4) {
+                ByteSet(vec![(0, 255)])
+            } else {
+                self.byteset(rng)
+            };
+            let v = match rng.gen_range(0..10) {
+                0 => None,
+                1 => Some(0),
+                _ => Some(rng.gen_range(1..=3)),
+            };
+            rules.push((set, v));
+        }
+        MarkFn(rules)
+    }
+
+    pub fn gen(&self, rng: &mut impl Rng, depth: usize, fl: GenFlags) -> Recipe {
+        use Recipe::*;
+        if depth <= 1 || rng.gen_bool(0.12) {
+            return self.leaf(rng, fl);
+        }
+        let d = depth - 1;
+        let sub = |rng: &mut _| Box::new(self.gen(rng, d, fl));
+        let nm = GenFlags { no_marks: true, ..fl };
+        let nn = GenFlags { no_neg: true, ..fl };
+        let n_rep = |rng: &mut dyn rand::RngCore| if rng.gen_bool(0.1) { 0 } else { rng.gen_range(1..=self.max_rep) };
+        let vecn = |rng: &mut _, lo: usize, hi: usize| -> Vec<Recipe> {
+            // empty argument lists are legal but rare
+            let lo = if lo == 0 && rand::Rng::gen_bool(rng, 0.9) { 1 } else { lo };
+            let n = rand::Rng::gen_range(rng, lo..=hi);
+            (0..n).map(|_| self.gen(rng, d, fl)).collect()
+        };
+        loop {
+            let k = rng.gen_range(0..120);
+            let r = match k {
+                0..=5 => {
+                    if fl.no_neg {
+                        continue;
+                    }
+                    Neg(Box::new(self.gen(rng, d, nm)))
+                }
+                6..=11 => List(sub(rng)),
+                12..=13 => SpacedList(sub(rng)),
+                14..=18 => NonEmptyList(sub(rng)),
+                19..=20 => SpacedNonEmptyList(sub(rng)),
+                21..=25 => Optional(sub(rng)),
+                26..=29 => Repeat(sub(rng), n_rep(rng)),
+                30..=31 => SpacedRepeat(sub(rng), n_rep(rng)),
+                32..=36 => RepeatAtMost(sub(rng), n_rep(rng)),
+                37..=38 => SpacedRepeatAtMost(sub(rng), n_rep(rng)),
+                39..=45 => {
+                    if fl.no_marks {
+                        continue;
+                    }
+                    Mark(Box::new(self.gen(rng, d, nn)), self.markfn(rng))
+                }
+                46..=50 => {
+                    if fl.no_marks {
+                        continue;
+                    }
+                    MarkBytes(
+                        Box::new(self.gen(rng, d, nn)),
+                        self.byteset(rng),
+                        rng.gen_range(0..=3),
+                    )
+                }
+                51..=53 => {
+                    if fl.no_marks {
+                        continue;
+                    }
+                    let n = rng.gen_range(1..=2);
+                    let t = (0..n)
+                        .map(|_| (rng.gen_range(0..=3), rng.gen_range(0..=3)))
+                        .collect();
+                    ReplaceMarkers(Box::new(self.gen(rng, d, nn)), t)
+                }
+                54..=59 => Terminated(sub(rng), sub(rng)),
+                60..=61 => SpacedTerminated(sub(rng), sub(rng)),
+                62..=67 => Or(sub(rng), sub(rng)),
+                68..=75 => {
+                    if !fl.no_marks && rng.gen_bool(0.4) {
+                        // the library's documented idiom: intersect with a marking transducer
+                        let marker =
+                            List(Box::new(Mark(Box::new(AnyByte), self.markfn(rng))));
+                        And(sub(rng), Box::new(marker))
+                    } else {
+                        And(sub(rng), sub(rng))
+                    }
+                }
+                76..=82 => {
+                    if fl.no_neg {
+                        continue;
+                    }
+                    Minus(sub(rng), Box::new(self.gen(rng, d, nm)))
+                }
+                83..=85 => SeparatedNonEmptyList(sub(rng), sub(rng)),
+                86 => SpacedSeparatedNonEmptyList(sub(rng), sub(rng)),
+                87..=89 => SeparatedList(sub(rng), sub(rng)),
+                90 => SpacedSeparatedList(sub(rng), sub(rng)),
+                91..=92 => SeparatedRepeat(sub(rng), n_rep(rng), sub(rng)),
+                93 => SpacedSeparatedRepeat(sub(rng), n_rep(rng), sub(rng)),
+                94..=95 => SeparatedRepeatAtMost(sub(rng), n_rep(rng), sub(rng)),
+                96 => SpacedSeparatedRepeatAtMost(sub(rng), n_rep(rng), sub(rng)),
+                97..=99 => Delimited(sub(rng), sub(rng), sub(rng)),
+                100 => SpacedDelimited(sub(rng), sub(rng), sub(rng)),
+                101..=105 => Union(vecn(rng, 0, 3)),
+                106..=109 => {
+                    let v = vecn(rng, if fl.no_neg { 1 } else { 0 }, 3);
+                    Inter(v)
+                }
+                110..=114 => Cat(vecn(rng, 0, 3)),
+                115..=116 => SpacedCat(vecn(rng, 0, 3)),
+                117..=118 => SeparatedCat(vecn(rng, 0, 3), sub(rng)),
+                _ => SpacedSeparatedCat(vecn(rng, 0, 3), sub(rng)),
+            };
+            return r;
+        }
+    }
+}
+
+// ---------------------------------------------------------------------------------------------
+// compiled DFA with outputs (the library's `Automaton`, copied into a dense table)
+// ---------------------------------------------------------------------------------------------
+
+#[derive(Clone, Debug)]
+pub struct LibDfa {
+    pub n: usize,
+    pub init: usize,
+    pub fin: Vec<bool>,
+    /// `delta[s * 256 + b] = (target, marker)`
+    pub delta: Vec<Option<(usize, Marker)>>,
+    /// can reach a final state
+    pub live: Vec<bool>,
+    pub n_transitions: usize,
+}
+
+impl LibDfa {
+    pub fn new(
+        nb_states: usize,
+        init: usize,
+        finals: impl IntoIterator<Item = usize>,
+        transitions: impl IntoIterator<Item = ((usize, u8), (usize, Marker))>,
+    ) -> Result<LibDfa, String> {
+        let mut n = nb_states.max(init + 1);
+        let finals: Vec<usize> = finals.into_iter().collect();
+        let trans: Vec<_> = transitions.into_iter().collect();
+        for f in &finals {
+            n = n.max(f + 1);
+        }
+        for ((s, _), (t, _)) in &trans {
+            n = n.max(s + 1).max(t + 1);
+        }
+        if n > nb_states {
+            return Err(format!("state index {} >= nb_states {}", n - 1, nb_states));
+        }
+        let mut fin = vec![false; n];
+        for f in finals {
+            fin[f] = true;
+        }
+        let mut delta = vec![None; n * 256];
+        let n_transitions = trans.len();
+        for ((s, b), (t, m)) in trans {
+            if delta[s * 256 + b as usize].is_some() {
+                return Err(format!("duplicate transition ({s},{b})"));
+            }
+            delta[s * 256 + b as usize] = Some((t, m));
+        }
+        // liveness
+        let mut rev: Vec<Vec<usize>> = vec![vec![]; n];
+        for s in 0..n {
+            for b in 0..256 {
+                if let Some((t, _)) = delta[s * 256 + b] {
+                    rev[t].push(s);
+                }
+            }
+        }
+        let mut live = fin.clone();
+        let mut q: Vec<usize> = (0..n).filter(|s| fin[*s]).collect();
+        while let Some(s) = q.pop() {
+            for p in &rev[s] {
+                if !live[*p] {
+                    live[*p] = true;
+                    q.push(*p);
+                }
+            }
+        }
+        Ok(LibDfa { n, init, fin, delta, live, n_transitions })
+    }
+
+    pub fn step(&self, s: usize, b: u8) -> Option<(usize, Marker)> {
+        self.delta[s * 256 + b as usize]
+    }
+
+    /// `None` if stuck, else (accepted, markers)
+    pub fn run(&self, w: &[u8]) -> Option<(bool, Vec<Marker>)> {
+        let mut s = self.init;
+        let mut out = Vec::with_capacity(w.len());
+        for b in w {
+            let (t, m) = self.step(s, *b)?;
+            out.push(m);
+            s = t;
+        }
+        Some((self.fin[s], out))
+    }
+
+    pub fn accepts(&self, w: &[u8]) -> bool {
+        matches!(self.run(w), Some((true, _)))
+    }
+
+    /// shortest word from `s` to a final state
+    pub fn suffix_to_final(&self, s: usize) -> Option<Vec<u8>> {
+        let mut prev: HashMap<usize, (usize, u8)> = HashMap::new();
+        let mut q = VecDeque::new();
+        q.push_back(s);
+        let mut seen = vec![false; self.n];
+        seen[s] = true;
+        while let Some(x) = q.pop_front() {
+            if self.fin[x] {
+                let mut w = vec![];
+                let mut c = x;
+                // `s` itself is never inserted in `prev` (it is marked seen first)
+                while let Some((p, b)) = prev.get(&c).copied() {
+                    w.push(b);
+                    c = p;
+                }
+                w.reverse();
+                return Some(w);
+            }
+            for b in 0..=255u8 {
+                if let Some((t, _)) = self.step(x, b) {
+                    if !seen[t] {
+                        seen[t] = true;
+                        prev.insert(t, (x, b));
+                        q.push_back(t);
+                    }
+                }
+            }
+        }
+        None
+    }
+
+    pub fn reachable_states(&self) -> usize {
+        let mut seen = vec![false; self.n];
+        let mut q = vec![self.init];
+        seen[self.init] = true;
+        let mut c = 0;
+        while let Some(s) = q.pop() {
+            c += 1;
+            for b in 0..256 {
+                if let Some((t, _)) = self.delta[s * 256 + b] {
+                    if !seen[t] {
+                        seen[t] = true;
+                        q.push(t);
+                    }
+                }
+            }
+        }
+        c
+    }
+}
+
+#[derive(Clone, Debug, PartialEq, Eq)]
+pub enum Diff {
+    /// `word` is accepted by exactly one side
+    Lang { word: Vec<u8>, left_accepts: bool },
+    /// `word` is accepted by both sides (if the languages agree) with different markers at `pos`
+    Marker { word: Vec<u8>, pos: usize, left: Marker, right: Marker },
+}
+
+/// Exhaustive equivalence (language and outputs) of two DFAs with outputs.
+pub fn dfa_equiv(a: &LibDfa, b: &LibDfa) -> (Option<Diff>, usize) {
+    let mut seen: HashMap<(usize, usize), Option<((usize, usize), u8)>> = HashMap::new();
+    let mut q = VecDeque::new();
+    seen.insert((a.init, b.init), None);
+    q.push_back((a.init, b.init));
+    let path = |seen: &HashMap<(usize, usize), Option<((usize, usize), u8)>>, mut s: (usize, usize)| {
+        let mut w = vec![];
+        while let Some(Some((p, c))) = seen.get(&s) {
+            w.push(*c);
+            s = *p;
+        }
+        w.reverse();
+        w
+    };
+    while let Some((x, y)) = q.pop_front() {
+        if a.fin[x] != b.fin[y] {
+            return (
+                Some(Diff::Lang { word: path(&seen, (x, y)), left_accepts: a.fin[x] }),
+                seen.len(),
+            );
+        }
+        for c in 0..=255u8 {
+            let l = a.step(x, c).filter(|(t, _)| a.live[*t]);
+            let r = b.step(y, c).filter(|(t, _)| b.live[*t]);
+            match (l, r) {
+                (None, None) => {}
+                (Some((t, _)), None) => {
+                    let mut w = path(&seen, (x, y));
+                    w.push(c);
+                    w.extend(a.suffix_to_final(t).unwrap_or_default());
+                    return (Some(Diff::Lang { word: w, left_accepts: true }), seen.len());
+                }
+                (None, Some((t, _))) => {
+                    let mut w = path(&seen, (x, y));
+                    w.push(c);
+                    w.extend(b.suffix_to_final(t).unwrap_or_default());
+                    return (Some(Diff::Lang { word: w, left_accepts: false }), seen.len());
+                }
+                (Some((t1, m1)), Some((t2, m2))) => {
+                    if m1 != m2 {
+                        let mut w = path(&seen, (x, y));
+                        let pos = w.len();
+                        w.push(c);
+                        w.extend(a.suffix_to_final(t1).unwrap_or_default());
+                        return (
+                            Some(Diff::Marker { word: w, pos, left: m1, right: m2 }),
+                            seen.len(),
+                        );
+                    }
+                    if !seen.contains_key(&(t1, t2)) {
+                        seen.insert((t1, t2), Some(((x, y), c)));
+                        q.push_back((t1, t2));
+                    }
+                }
+            }
+        }
+    }
+    (None, seen.len())
+}
+
+// ---------------------------------------------------------------------------------------------
+// marked derivative automaton over byte classes
+// ---------------------------------------------------------------------------------------------
+
+pub struct RefAut {
+    /// class -> bytes (sorted); representative = first
+    pub classes: Vec<Vec<u8>>,
+    pub class_of: Vec<usize>,
+    /// markers to try for each class (always contains 0)
+    pub class_markers: Vec<Vec<Marker>>,
+    pub states: Vec<RefRe>,
+    pub nullable: Vec<bool>,
+    /// `[state][class]` -> (marker, next), non-empty derivatives only
+    pub trans: Vec<Vec<Vec<(Marker, usize)>>>,
+    pub live: Vec<bool>,
+    /// BFS parent (state, byte) of each state
+    pub parent: Vec<Option<(usize, u8)>>,
+}
+
+#[derive(Clone, Debug)]
+pub struct NonSeqDet {
+    pub prefix: Vec<u8>,
+    pub byte: u8,
+    pub m1: Marker,
+    pub m2: Marker,
+}
+
+pub fn byte_classes(r: &RefRe) -> (Vec<Vec<u8>>, Vec<usize>, Vec<Vec<Marker>>) {
+    let mut sets: BTreeSet<&Vec<Letter>> = BTreeSet::new();
+    r.visit_sets(&mut |l| {
+        sets.insert(&**l);
+    });
+    let mut sig: Vec<Vec<(usize, Marker)>> = vec![vec![]; 256];
+    for (i, s) in sets.iter().enumerate() {
+        for (b, m) in s.iter() {
+            sig[*b as usize].push((i, *m));
+        }
+    }
+    let mut by_sig: BTreeMap<&Vec<(usize, Marker)>, usize> = BTreeMap::new();
+    let mut classes: Vec<Vec<u8>> = vec![];
+    let mut class_of = vec![0usize; 256];
+    let mut class_markers: Vec<Vec<Marker>> = vec![];
+    for b in 0..256usize {
+        let id = *by_sig.entry(&sig[b]).or_insert_with(|| {
+            classes.push(vec![]);
+            let mut ms: BTreeSet<Marker> = sig[b].iter().map(|(_, m)| *m).collect();
+            ms.insert(0);
+            class_markers.push(ms.into_iter().collect());
+            classes.len() - 1
+        });
+        classes[id].push(b as u8);
+        class_of[b] = id;
+    }
+    (classes, class_of, class_markers)
+}
+
+impl RefAut {
+    /// `None` when more than `bound` states are needed.
+    pub fn explore(r: &RefRe, bound: usize) -> Option<RefAut> {
+        let (classes, class_of, class_markers) = byte_classes(r);
+        let mut index: HashMap<RefRe, usize> = HashMap::new();
+        let mut states = vec![r.clone()];
+        let mut parent = vec![None];
+        index.insert(r.clone(), 0);
+        let mut trans: Vec<Vec<Vec<(Marker, usize)>>> = vec![];
+        let mut i = 0;
+        while i < states.len() {
+            let s = states[i].clone();
+            let mut row = Vec::with_capacity(classes.len());
+            for (c, bytes) in classes.iter().enumerate() {
+                let b = bytes[0];
+                let mut outs = vec![];
+                for m in &class_markers[c] {
+                    let d = s.deriv(b, *m);
+                    if d == Empty {
+                        continue;
+                    }
+                    let id = match index.get(&d) {
+                        Some(id) => *id,
+                        None => {
+                            if states.len() >= bound {
+                                return None;
+                            }
+                            states.push(d.clone());
+                            parent.push(Some((i, b)));
+                            index.insert(d, states.len() - 1);
+                            states.len() - 1
+                        }
+                    };
+                    outs.push((*m, id));
+                }
+                row.push(outs);
+            }
+            trans.push(row);
+            i += 1;
+        }
+        let nullable: Vec<bool> = states.iter().map(|s| s.nullable()).collect();
+        let n = states.len();
+        let mut rev: Vec<Vec<usize>> = vec![vec![]; n];
+        for (s, row) in trans.iter().enumerate() {
+            for outs in row {
+                for (_, t) in outs {
+                    rev[*t].push(s);
+                }
+            }
+        }
+        let mut live = nullable.clone();
+        let mut q: Vec<usize> = (0..n).filter(|s| nullable[*s]).collect();
+        while let Some(s) = q.pop() {
+            for p in &rev[s] {
+                if !live[*p] {
+                    live[*p] = true;
+                    q.push(*p);
+                }
+            }
+        }
+        Some(RefAut { classes, class_of, class_markers, states, nullable, trans, live, parent })
+    }
+
+    pub fn path_to(&self, mut s: usize) -> Vec<u8> {
+        let mut w = vec![];
+        while let Some((p, b)) = self.parent[s] {
+            w.push(b);
+            s = p;
+        }
+        w.reverse();
+        w
+    }
+
+    pub fn live_succ(&self, s: usize, class: usize) -> Vec<(Marker, usize)> {
+        self.trans[s][class].iter().copied().filter(|(_, t)| self.live[*t]).collect()
+    }
+
+    /// Sequential output-determinism: in every live state every byte has at most one marker
+    /// leading to a live state (what a deterministic transducer can realise).
+    pub fn seq_det(&self) -> Result<(), NonSeqDet> {
+        for s in 0..self.states.len() {
+            if !self.live[s] {
+                continue;
+            }
+            for c in 0..self.classes.len() {
+                let l = self.live_succ(s, c);
+                if l.len() > 1 {
+                    return Err(NonSeqDet {
+                        prefix: self.path_to(s),
+                        byte: self.classes[c][0],
+                        m1: l[0].0,
+                        m2: l[1].0,
+                    });
+                }
+            }
+        }
+        Ok(())
+    }
+
+    /// Some accepted byte word with two different markings? `None` = search budget exceeded.
+    pub fn ambiguous_word(&self, budget: usize) -> Option<Option<Vec<u8>>> {
+        // pairs of runs on the same bytes; `div` = markings already differ
+        let mut seen: HashMap<(usize, usize, bool), Option<((usize, usize, bool), u8)>> =
+            HashMap::new();
+        let mut q = VecDeque::new();
+        seen.insert((0, 0, false), None);
+        q.push_back((0usize, 0usize, false));
+        while let Some((x, y, div)) = q.pop_front() {
+            if div && self.nullable[x] && self.nullable[y] {
+                let mut w = vec![];
+                let mut s = (x, y, div);
+                while let Some(Some((p, b))) = seen.get(&s) {
+                    w.push(*b);
+                    s = *p;
+                }
+                w.reverse();
+                return Some(Some(w));
+            }
+            for c in 0..self.classes.len() {
+                let lx = self.live_succ(x, c);
+                let ly = self.live_succ(y, c);
+                for (m1, t1) in &lx {
+                    for (m2, t2) in &ly {
+                        let d2 = div || m1 != m2;
+                        let key = if !d2 && t1 > t2 { (*t2, *t1, d2) } else { (*t1, *t2, d2) };
+                        if !seen.contains_key(&key) {
+                            if seen.len() >= budget {
+                                return None;
+                            }
+                            seen.insert(key, Some(((x, y, div), self.classes[c][0])));
+                            q.push_back(key);
+                        }
+                    }
+                }
+            }
+        }
+        Some(None)
+    }
+
+    pub fn suffix_to_nullable(&self, s: usize) -> Option<Vec<u8>> {
+        let mut prev: HashMap<usize, (usize, u8)> = HashMap::new();
+        let mut q = VecDeque::new();
+        q.push_back(s);
+        let mut seen = vec![false; self.states.len()];
+        seen[s] = true;
+        while let Some(x) = q.pop_front() {
+            if self.nullable[x] {
+                let mut w = vec![];
+                let mut c = x;
+                while c != s {
+                    let (p, b) = prev[&c];
+                    w.push(b);
+                    c = p;
+                }
+                w.reverse();
+                return Some(w);
+            }
+            for (c, outs) in self.trans[x].iter().enumerate() {
+                for (_, t) in outs {
+                    if self.live[*t] && !seen[*t] {
+                        seen[*t] = true;
+                        prev.insert(*t, (x, self.classes[c][0]));
+                        q.push_back(*t);
+                    }
+                }
+            }
+        }
+        None
+    }
+
+    /// Exhaustive comparison with a compiled DFA: language and outputs, all 256 bytes in every
+    /// product state. Requires `self.seq_det()`. Returns the first difference in BFS order and the
+    /// number of product states visited. `left` = reference, `right` = compiled automaton.
+    pub fn product_check(&self, lib: &LibDfa) -> (Option<Diff>, usize) {
+        let mut seen: HashMap<(usize, usize), Option<((usize, usize), u8)>> = HashMap::new();
+        let mut q = VecDeque::new();
+        let path = |seen: &HashMap<(usize, usize), Option<((usize, usize), u8)>>,
+                    mut s: (usize, usize)| {
+            let mut w = vec![];
+            while let Some(Some((p, c))) = seen.get(&s) {
+                w.push(*c);
+                s = *p;
+            }
+            w.reverse();
+            w
+        };
+        let ref_live0 = self.live[0];
+        let lib_live0 = lib.live[lib.init];
+        if !ref_live0 && !lib_live0 {
+            return (None, 0);
+        }
+        if ref_live0 != lib_live0 {
+            let w = if ref_live0 {
+                self.suffix_to_nullable(0).unwrap_or_default()
+            } else {
+                lib.suffix_to_final(lib.init).unwrap_or_default()
+            };
+            return (Some(Diff::Lang { word: w, left_accepts: ref_live0 }), 1);
+        }
+        seen.insert((0, lib.init), None);
+        q.push_back((0usize, lib.init));
+        while let Some((r, l)) = q.pop_front() {
+            if self.nullable[r] != lib.fin[l] {
+                return (
+                    Some(Diff::Lang { word: path(&seen, (r, l)), left_accepts: self.nullable[r] }),
+                    seen.len(),
+                );
+            }
+            for (c, bytes) in self.classes.iter().enumerate() {
+                let rs = self.live_succ(r, c);
+                let rsucc = rs.first().copied();
+                for b in bytes {
+                    let ls = lib.step(l, *b).filter(|(t, _)| lib.live[*t]);
+                    match (rsucc, ls) {
+                        (None, None) => {}
+                        (Some((_, t)), None) => {
+                            let mut w = path(&seen, (r, l));
+                            w.push(*b);
+                            w.extend(self.suffix_to_nullable(t).unwrap_or_default());
+                            return (Some(Diff::Lang { word: w, left_accepts: true }), seen.len());
+                        }
+                        (None, Some((t, _))) => {
+                            let mut w = path(&seen, (r, l));
+                            w.push(*b);
+                            w.extend(lib.suffix_to_final(t).unwrap_or_default());
+                            return (Some(Diff::Lang { word: w, left_accepts: false }), seen.len());
+                        }
+                        (Some((m1, t1)), Some((t2, m2))) => {
+                            if m1 != m2 {
+                                let mut w = path(&seen, (r, l));
+                                let pos = w.len();
+                                w.push(*b);
+                                w.extend(self.suffix_to_nullable(t1).unwrap_or_default());
+                                return (
+                                    Some(Diff::Marker { word: w, pos, left: m1, right: m2 }),
+                                    seen.len(),
+                                );
+                            }
+                            if !seen.contains_key(&(t1, t2)) {
+                                seen.insert((t1, t2), Some(((r, l), *b)));
+                                q.push_back((t1, t2));
+                            }
+                        }
+                    }
+                }
+            }
+        }
+        (None, seen.len())
+    }
+}
+
+// ---------------------------------------------------------------------------------------------
+// word-level semantics
+// ---------------------------------------------------------------------------------------------
+
+fn markers_for(r: &RefRe) -> Vec<Vec<Marker>> {
+    let mut per: Vec<BTreeSet<Marker>> = vec![BTreeSet::from([0]); 256];
+    r.visit_sets(&mut |l| {
+        for (b, m) in l.iter() {
+            per[*b as usize].insert(*m);
+        }
+    });
+    per.into_iter().map(|s| s.into_iter().collect()).collect()
+}
+
+/// All marker sequences with which `w` is in the language (derivative DP). `Err` if more than
+/// `cap` partial markings are alive at some point.
+pub fn match_markers(r: &RefRe, w: &[u8], cap: usize) -> Result<BTreeSet<Vec<Marker>>, ()> {
+    let per = markers_for(r);
+    let mut cur: BTreeSet<(RefRe, Vec<Marker>)> = BTreeSet::new();
+    cur.insert((r.clone(), vec![]));
+    for b in w {
+        let mut next = BTreeSet::new();
+        for (s, ms) in &cur {
+            for m in &per[*b as usize] {
+                let d = s.deriv(*b, *m);
+                if d != Empty {
+                    let mut v = ms.clone();
+                    v.push(*m);
+                    next.insert((d, v));
+                }
+            }
+        }
+        if next.len() > cap {
+            return Err(());
+        }
+        cur = next;
+        if cur.is_empty() {
+            break;
+        }
+    }
+    Ok(cur.into_iter().filter(|(s, _)| s.nullable()).map(|(_, v)| v).collect())
+}
+
+/// Span-based denotational matcher (no derivatives, no smart constructors involved beyond the
+/// tree itself): the set of markings of `w` in the language of `r`.
+pub fn naive_match(r: &RefRe, w: &[u8]) -> BTreeSet<Vec<Marker>> {
+    let mut memo: HashMap<(*const RefRe, usize, usize), BTreeSet<Vec<Marker>>> = HashMap::new();
+    naive(r, w, 0, w.len(), &mut memo)
+}
+
+type Memo = HashMap<(*const RefRe, usize, usize), BTreeSet<Vec<Marker>>>;
+
+fn concat_sets(a: &BTreeSet<Vec<Marker>>, b: &BTreeSet<Vec<Marker>>) -> BTreeSet<Vec<Marker>> {
+    let mut out = BTreeSet::new();
+    for x in a {
+        for y in b {
+            let mut v = x.clone();
+            v.extend(y);
+            out.insert(v);
+        }
+    }
+    out
+}
+
+fn naive(r: &RefRe, w: &[u8], i: usize, j: usize, memo: &mut Memo) -> BTreeSet<Vec<Marker>> {
+    let key = (r as *const RefRe, i, j);
+    if let Some(v) = memo.get(&key) {
+        return v.clone();
+    }
+    let res: BTreeSet<Vec<Marker>> = match r {
+        Empty => BTreeSet::new(),
+        Eps => {
+            if i == j {
+                BTreeSet::from([vec![]])
+            } else {
+                BTreeSet::new()
+            }
+        }
+        Set(l) => {
+            if j == i + 1 {
+                l.iter().filter(|(b, _)| *b == w[i]).map(|(_, m)| vec![*m]).collect()
+            } else {
+                BTreeSet::new()
+            }
+        }
+        Cat(v) => naive_cat(&v[..], w, i, j, memo),
+        Alt(v) => {
+            let mut out = BTreeSet::new();
+            for x in v.iter() {
+                out.extend(naive(x, w, i, j, memo));
+            }
+            out
+        }
+        And(v) => {
+            let mut acc: BTreeSet<Vec<Marker>> = BTreeSet::from([vec![0; j - i]]);
+            for x in v.iter() {
+                let s = naive(x, w, i, j, memo);
+                let mut next = BTreeSet::new();
+                for a in &acc {
+                    'b: for b in &s {
+                        let mut u = Vec::with_capacity(a.len());
+                        for (p, q) in a.iter().zip(b.iter()) {
+                            if p == q || *p == 0 || *q == 0 {
+                                u.push(*p.max(q));
+                            } else {
+                                continue 'b;
+                            }
+                        }
+                        next.insert(u);
+                    }
+                }
+                acc = next;
+            }
+            acc
+        }
+        Not(x) => {
+            if naive(x, w, i, j, memo).is_empty() {
+                BTreeSet::from([vec![0; j - i]])
+            } else {
+                BTreeSet::new()
+            }
+        }
+        Star(x) => {
+            if i == j {
+                BTreeSet::from([vec![]])
+            } else {
+                let mut out = BTreeSet::new();
+                for k in i + 1..=j {
+                    let head = naive(x, w, i, k, memo);
+                    if head.is_empty() {
+                        continue;
+                    }
+                    let tail = naive(r, w, k, j, memo);
+                    out.extend(concat_sets(&head, &tail));
+                }
+                out
+            }
+        }
+        Rep(x, lo, hi) => {
+            // exactly n copies for n in lo..=hi
+            let mut out = BTreeSet::new();
+            // layer[n][k] = markings of w[i..k] as exactly n copies
+            let mut layer: Vec<BTreeSet<Vec<Marker>>> = vec![BTreeSet::new(); j - i + 1];
+            layer[0].insert(vec![]);
+            if *lo == 0 {
+                out.extend(layer[j - i].iter().cloned());
+            }
+            for n in 1..=*hi {
+                let mut next: Vec<BTreeSet<Vec<Marker>>> = vec![BTreeSet::new(); j - i + 1];
+                for a in 0..=(j - i) {
+                    if layer[a].is_empty() {
+                        continue;
+                    }
+                    for b in a..=(j - i) {
+                        let piece = naive(x, w, i + a, i + b, memo);
+                        if piece.is_empty() {
+                            continue;
+                        }
+                        let c = concat_sets(&layer[a], &piece);
+                        next[b].extend(c);
+                    }
+                }
+                layer = next;
+                if n >= *lo {
+                    out.extend(layer[j - i].iter().cloned());
+                }
+            }
+            out
+        }
+    };
+    memo.insert(key, res.clone());
+    res
+}
+
+fn naive_cat(v: &[RefRe], w: &[u8], i: usize, j: usize, memo: &mut Memo) -> BTreeSet<Vec<Marker>> {
+    if v.is_empty() {
+        return if i == j { BTreeSet::from([vec![]]) } else { BTreeSet::new() };
+    }
+    if v.len() == 1 {
+        return naive(&v[0], w, i, j, memo);
+    }
+    let mut out = BTreeSet::new();
+    for k in i..=j {
+        let head = naive(&v[0], w, i, k, memo);
+        if head.is_empty() {
+            continue;
+        }
+        let tail = naive_cat(&v[1..], w, k, j, memo);
+        out.extend(concat_sets(&head, &tail));
+    }
+    out
+}
+
+// ---------------------------------------------------------------------------------------------
+// self test (called by the check at start-up; a failure is a harness bug, never a violation)
+// ---------------------------------------------------------------------------------------------
+
+pub fn self_test() -> Result<(), String> {
+    let a = || RefRe::byte_from([b'a']);
+    let b = || RefRe::byte_from([b'b']);
+    let chk = |r: &RefRe, w: &[u8], exp: &[&[Marker]]| -> Result<(), String> {
+        let e: BTreeSet<Vec<Marker>> = exp.iter().map(|x| x.to_vec()).collect();
+        let d = match_markers(r, w, 1000).map_err(|_| "overflow".to_string())?;
+        let n = naive_match(r, w);
+        if d != e || n != e {
+            return Err(format!("self-test: {r:?} on {w:?}: deriv {d:?} naive {n:?} expected {e:?}"));
+        }
+        Ok(())
+    };
+    // (a|b)* minus a*  : words with a b
+    let r = RefRe::mk_star(a().or(b())).minus(RefRe::mk_star(a()));
+    chk(&r, b"aab", &[&[0, 0, 0]])?;
+    chk(&r, b"aaa", &[])?;
+    chk(&r, b"", &[])?;
+    // markers and intersection unification
+    let m = RefRe::any_byte().mark(&|c| if c == b'a' { Some(2) } else { None }).list();
+    let r2 = RefRe::word(b"ab").non_empty_list().and(m);
+    chk(&r2, b"abab", &[&[2, 0, 2, 0]])?;
+    chk(&r2, b"aba", &[])?;
+    let r3 = a().mark(&|_| Some(1)).and(a().mark(&|_| Some(2)));
+    chk(&r3, b"a", &[])?;
+    // bounded repetition
+    let r4 = a().or(RefRe::word(b"ab")).repeat_at_most(2);
+    chk(&r4, b"aab", &[&[0, 0, 0]])?;
+    chk(&r4, b"abab", &[&[0, 0, 0, 0]])?;
+    chk(&r4, b"aaa", &[])?;
+    chk(&r4, b"", &[&[]])?;
+    let r5 = a().separated_repeat(3, b());
+    chk(&r5, b"ababa", &[&[0; 5]])?;
+    chk(&r5, b"aba", &[])?;
+    // complement of epsilon / of the empty language
+    chk(&RefRe::epsilon().neg(), b"", &[])?;
+    chk(&RefRe::epsilon().neg(), b"x", &[&[0]])?;
+    chk(&RefRe::union(vec![]).neg(), b"xy", &[&[0, 0]])?;
+    // ambiguity is visible
+    let r6 = a().mark(&|_| Some(1)).or(a());
+    chk(&r6, b"a", &[&[0], &[1]])?;
+    // json string
+    let js = RefRe::json_string();
+    chk(&js, b"\"a\\n\"", &[&[0, 1, 1, 1, 0]])?;
+    chk(&js, b"\"a\\x\"", &[])?;
+    chk(&js, &[b'"', 0xC3, 0xA9, b'"'], &[&[0, 1, 1, 0]])?;
+    chk(&js, &[b'"', 0xC3, b'"'], &[])?;
+    // automaton level
+    let aut = RefAut::explore(&r2, 1000).ok_or("explore")?;
+    aut.seq_det().map_err(|e| format!("seq_det {e:?}"))?;
+    let aut6 = RefAut::explore(&r6, 1000).ok_or("explore")?;
+    if aut6.seq_det().is_ok() {
+        return Err("self-test: ambiguity not detected".into());
+    }
+    if aut6.ambiguous_word(1000) != Some(Some(b"a".to_vec())) {
+        return Err("self-test: ambiguous word".into());
+    }
+    Ok(())
+}
